@@ -21,7 +21,7 @@ def main() -> int:
     a = ap.parse_args()
     seed = int(os.environ.get("VERIF_SEED") or 0)
     pid = a.pid.upper()
-    ctx = common.Ctx(pid, a.tier, seed)
+    ctx = common.Ctx(pid, a.tier, seed, clean=not a.replay)
     try:
         mod = importlib.import_module(f"harness.props.{pid.lower()}")
     except ModuleNotFoundError:
